@@ -65,7 +65,7 @@ def vectors(chk):
     return n
 
 
-def dm1_scenario(seed, dll, ndtc=None, cycle=None, stop=True):
+def dm1_scenario(seed, dll, ndtc=None, cycle=None, stop=True, overrun=False, restart=False):
     rng = random.Random(seed)
     fd = dll == "j1939-22"
     nodes = [node("A", [0x10], rng.choice([1, 900]), rng.choice([1, 3])), node("B", [0x20], rng.choice([1, 700]), 1),
@@ -83,16 +83,28 @@ def dm1_scenario(seed, dll, ndtc=None, cycle=None, stop=True):
     # one transfer must be over before the next cycle starts (BAM: 50 ms per packet; FD: 10 ms per segment)
     need = ((size + 6) // 7 + 2) * 51000 if not fd else ((size + 59) // 60 + 3) * 11000
     cyc = cycle or rng.choice([100000, 250000, 1000000])
-    cyc = max(cyc, ((need // 50000) + 2) * 50000) if size > (60 if fd else 8) else cyc
+    if not overrun:
+        cyc = max(cyc, ((need // 50000) + 2) * 50000) if size > (60 if fd else 8) else cyc
+    # (overrun: the cycle is shorter than one transfer - the transport layer refuses the DM1 of a cycle that starts
+    # while the previous one is still on the bus; that cycle is skipped, the following ones go on)
     ncalls = rng.randint(1, 4)
     start = rng.choice([0, 1234, 500000])
     stop_t = start + cyc * ncalls + cyc // 2 if stop else None
     dur = (cyc * (ncalls + 2) if stop else cyc * ncalls + 100) + need + 500000
+    sender = {"node": "A", "ca": 0x10, "cycle": cyc, "start": start, "stop": stop_t, "seq": seq, "inplace": rng.random() < 0.4}
+    if restart and stop:
+        # start_send again on the same object after stop_send (another cycle time), and stop again
+        cyc2 = rng.choice([cyc, cyc + 50000, 2 * cyc])
+        r0 = stop_t + need + rng.choice([1000, 300000])
+        sender["restart"] = [{"start": r0, "cycle": cyc2, "stop": r0 + 2 * cyc2 + cyc2 // 2}]
+        dur = r0 + 4 * cyc2 + need + 500000
     return {"dll": dll, "nodes": nodes, "sends": [], "wrap_send": True, "seed": seed,
-            "dm1": {"sender": {"node": "A", "ca": 0x10, "cycle": cyc, "start": start, "stop": stop_t, "seq": seq,
-                               "inplace": rng.random() < 0.4},
-                    "receiver": {"node": "B", "ca": 0x20}},
-            "dur": dur, "expect": {"all": True, "idle": True, "dm1all": bool(stop)}}
+            "dm1": {"sender": sender, "receiver": {"node": "B", "ca": 0x20}},
+            "dur": dur, "expect": {"all": not overrun, "idle": True, "dm1all": bool(stop)}}
+
+
+def fd_(dll):
+    return dll == "j1939-22"
 
 
 def nontrivial(tr):
@@ -102,7 +114,7 @@ def nontrivial(tr):
 def run(chk, replay):
     chk.rule = ("TLC vectors (DTC 30 SPN x 8 FMI x 6 OC, all 625 lamp tuples, DM22) + seeded DM1 sender/subscriber "
                 "scenarios: 1..400 trouble codes per message (single frame, BAM, FD multi-PG, FD BAM), 1..3 different "
-                "messages per scenario, cycle times 0.1..1 s, start/stop histories, both data link layers; "
+                "messages per scenario, cycle times 0.1..1 s, start/stop/start-again histories, cycles shorter than one transfer (refused, skipped), both data link layers; "
                 "non-trivial = at least one DM1 reached the subscriber")
     chk.assumptions = ["one DM1 sender and one DM1 subscriber per scenario", "virtual clock; wake latency 1 us"]
     if replay:
@@ -121,6 +133,10 @@ def run(chk, replay):
         for n in ([1, 2, 14, 15, 100, 400] if quick else [1, 2, 3, 13, 14, 15, 16, 60, 100, 255, 399, 400]):
             scs.append(dm1_scenario(chk.seed + n, dll, ndtc=n))
         scs.append(dm1_scenario(chk.seed + 5, dll, ndtc=1, cycle=100000, stop=False))
+        for i in range(6 if quick else 60):
+            scs.append(dm1_scenario(chk.seed * 15485863 + i, dll, restart=True))
+        for n in (10, 30):
+            scs.append(dm1_scenario(chk.seed + n, dll, ndtc=n, cycle=200000 if not fd_(dll) else 20000, overrun=True))
         traces = [scen.run(sc)[0] for sc in scs]
         chk.validate(spec + ".tla", spec + ".cfg", traces, "dm1" + dll[-2:], nontrivial=nontrivial)
 
